@@ -368,7 +368,82 @@ def bounded(tier, seed, R):
                     w = {'workload_1': n1, 'workload_2': n2, 'preempt_at_record': j, 'warmed_up': warm,
                          'got': repr((res.get('w1'), res.get('w2')))[:300], 'alone': repr((alone[n1], alone[n2]))[:300]}
                     R.check('bounded/interleaved_equals_alone', pre.fired and res.get('w1') == alone[n1] and res.get('w2') == alone[n2], w)
-        R.bound = f'{len(pairs)} workload pairs, {total} interleavings'
+        # crossed schedules: W1 runs to its j-th record and parks, W2 runs to ITS k-th record and parks, W1 finishes,
+        # W2 finishes - the two evaluations overlap without one being nested in the other (a shared stack that is
+        # pushed and popped in step survives the nested schedule, not this one)
+        def record_count(name):
+            cnt = Counter()
+            logger.addFilter(cnt)
+            m_ = works[name][0]()
+            t_ = threading.Thread(target=lambda: works[name][1](m_), name='W1')
+            t_.start(); t_.join()
+            logger.removeFilter(cnt)
+            return cnt.n
+
+        def pick(n_, k_):
+            pts = list(range(1, n_ + 1))
+            if len(pts) <= k_:
+                return pts
+            step = len(pts) / float(k_)
+            return sorted({pts[int(i * step)] for i in range(k_)} | {pts[-1]})
+
+        crossed_pairs = [('array', 'array'), ('array', 'plain'), ('plain', 'array'), ('array', 'iterative-a'),
+                         ('iterative-a', 'array'), ('iterative-a', 'iterative-b')]
+        counts = {n: record_count(n) for n in names}
+        n_cross = 0
+        for n1, n2 in crossed_pairs:
+            for j in pick(counts[n1], 6 if not thorough else 16):
+                for k in pick(counts[n2], 5 if not thorough else 16):
+                    n_cross += 1
+                    res = {}
+                    m1, m2 = works[n1][0](), works[n2][0]()
+                    w1_parked, w2_parked, w1_done = threading.Event(), threading.Event(), threading.Event()
+
+                    class Cross(logging.Filter):
+                        def __init__(self):
+                            super().__init__()
+                            self.n = {'W1': 0, 'W2': 0}
+
+                        def filter(self, record):
+                            who = threading.current_thread().name
+                            if who in self.n:
+                                self.n[who] += 1
+                                if who == 'W1' and self.n[who] == j:
+                                    w1_parked.set()
+                                    w2_parked.wait(60)       # W2 runs up to its k-th record (or to its end)
+                                elif who == 'W2' and self.n[who] == k:
+                                    w2_parked.set()
+                                    w1_done.wait(60)         # W1 finishes first
+                            return True
+                    cross = Cross()
+                    logger.addFilter(cross)
+
+                    def w1():
+                        try:
+                            res['w1'] = works[n1][1](m1)
+                        except Exception as e:      # noqa
+                            res['w1'] = f'raised {type(e).__name__}: {e}'[:200]
+                        finally:
+                            w1_parked.set()
+                            w1_done.set()
+
+                    def w2():
+                        w1_parked.wait(60)
+                        try:
+                            res['w2'] = works[n2][1](m2)
+                        except Exception as e:      # noqa
+                            res['w2'] = f'raised {type(e).__name__}: {e}'[:200]
+                        finally:
+                            w2_parked.set()
+                    t1 = threading.Thread(target=w1, name='W1')
+                    t2 = threading.Thread(target=w2, name='W2')
+                    t1.start(); t2.start()
+                    t1.join(120); t2.join(120)
+                    logger.removeFilter(cross)
+                    w = {'workload_1': n1, 'workload_2': n2, 'w1_parks_at_record': j, 'w2_parks_at_record': k,
+                         'got': repr((res.get('w1'), res.get('w2')))[:300], 'alone': repr((alone[n1], alone[n2]))[:300]}
+                    R.check('bounded/crossed_equals_alone', res.get('w1') == alone[n1] and res.get('w2') == alone[n2], w)
+        R.bound = f'{len(pairs)} workload pairs, {total} nested + {n_cross} crossed interleavings'
     finally:
         logger.removeHandler(nh)
         logger.setLevel(old_level)
